@@ -9,6 +9,7 @@ as (n,2,3) sent `interp_envelope` into an endless padding loop that allocated te
 """
 import copy
 import hashlib
+import inspect
 import resource
 import signal
 
@@ -234,6 +235,60 @@ def sift_opts():
                               'mag_pad_opts': {'mode': 'median', 'stat_length': 1}})
 
 
+IMF_VALUES = {'env_step_size': 1, 'max_iters': 500, 'energy_thresh': 50, 'stop_method': 'sd', 'sd_thresh': 0.1,
+              'rilling_thresh': (0.05, 0.5, 0.05)}
+
+
+def every_key(func, values, skip=()):
+    """A keyword dictionary in which EVERY optional parameter of `func` is present (read off the live signature, so a
+    parameter added later is included with its default); `values` gives the non-default values used here."""
+    d = {}
+    for p in list(inspect.signature(func).parameters.values())[1:]:
+        if p.name in skip or p.default is inspect.Parameter.empty or p.kind in (p.VAR_POSITIONAL, p.VAR_KEYWORD):
+            continue
+        d[p.name] = copy.deepcopy(values.get(p.name, p.default))
+    return d
+
+
+def full_stage_opts():
+    """The three option dictionaries with every optional key of their stage present (nested pad dictionaries included)."""
+    S = _E().sift
+    ext = every_key(S.get_padded_extrema, dict(sift_opts()['extrema_opts'], pad_width=3), skip=('mode',))
+    return dict(imf_opts=every_key(S.get_next_imf, IMF_VALUES, skip=('envelope_opts', 'extrema_opts')),
+                envelope_opts=every_key(S.interp_envelope, {'interp_method': 'pchip'}, skip=('mode', 'extrema_opts', 'ret_extrema')),
+                extrema_opts=ext)
+
+
+def full_sift_args(func, **values):
+    """Every optional keyword of a sift variant, the three stage dictionaries complete as well (for sift_args=...)."""
+    return every_key(func, dict(full_stage_opts(), **values))
+
+
+def _mk_sift_full(seed, n):
+    return dict(X=sig(seed, n), **full_stage_opts())
+
+
+def cast(make, **how):
+    """The inputs of `make` with some arrays converted: 'f4' float32, 'i8' integers (values scaled by 50 and rounded)."""
+    def mk(seed, n):
+        d = make(seed, n)
+        for k, dt in how.items():
+            a = np.asarray(d[k])
+            d[k] = np.round(a * 50).astype(np.int64) if dt == 'i8' else a.astype(dt)
+        return d
+    return mk
+
+
+def unwrapped(seed, n):
+    """An UNWRAPPED instantaneous phase (values far above 2 pi): get_cycle_vector documents that it wraps such input."""
+    return np.unwrap(derived(seed, n)['ip'])
+
+
+def clean_unwrapped(seed, n):
+    r = np.random.RandomState(seed + 17)
+    return 2 * np.pi * r.randint(4, 9) * np.arange(n) / n + 2 * np.pi * r.uniform(0.2, 0.8)
+
+
 SIFT_X = dict(accept=['c', 'c11'], reject=['n2', '1n', 'n23'])
 ENV_X = dict(accept=['c'], reject=['n2', '1n', 'n23'])
 VEC = dict(accept=['c'], reject=['n2'], short=True)
@@ -412,6 +467,111 @@ def entry_points():
         EP('Cycles.compute_cycle_metric', _mk_container, _cycles_compute, {}, (), 'container'),
         EP('Cycles.pick_cycle_subset', lambda s, n: dict(conditions=['is_good==1', 'mx>0.1'], **_mk_container(s, n)),
            _cycles_subset, {}, ('conditions',), 'container'),
+        # ---- option dictionaries in which every optional key is present (and the same dict object passed twice) ----
+        EP('sift:every-option', _mk_sift_full, lambda X, **o: S.sift(X, sift_thresh=1e-8, max_imfs=3, verbose=None, **o), {'X': dict(accept=['c'])}, OPTS3, 'options'),
+        EP('ensemble_sift:every-option', _mk_sift_full,
+           lambda X, **o: S.ensemble_sift(X, nensembles=2, ensemble_noise=.2, noise_mode='single', nprocesses=1, sift_thresh=1e-8, max_imfs=2, verbose=None, **o),
+           {}, OPTS3, 'options', seeded=True),
+        EP('complete_ensemble_sift:every-option', _mk_sift_full,
+           lambda X, **o: S.complete_ensemble_sift(X, nensembles=2, ensemble_noise=.2, noise_mode='flip', nprocesses=1, sift_thresh=1e-8, max_imfs=2, verbose=None, **o),
+           {}, OPTS3, 'options', seeded=True),
+        EP('mask_sift:every-option', _mk_sift_full,
+           lambda X, **o: S.mask_sift(X, **every_key(S.mask_sift, dict(max_imfs=3, nphases=4, nprocesses=1), skip=OPTS3), **o), {}, OPTS3, 'options'),
+        EP('mask_sift:mask_freqs-array', lambda s, n: dict(X=sig(s, n), mask_freqs=np.array([0.2, 0.1, 0.05]), mask_amp=np.array([1.0, 0.8, 0.6]), **sift_opts()),
+           lambda X, mask_freqs, mask_amp, **o: S.mask_sift(X, mask_freqs=mask_freqs, mask_amp=mask_amp, max_imfs=3, nprocesses=1, **o), {}, OPTS3, 'options'),
+        EP('get_next_imf:every-option', lambda s, n: dict(X=sig(s, n), envelope_opts=full_stage_opts()['envelope_opts'], extrema_opts=full_stage_opts()['extrema_opts']),
+           lambda X, **o: S.get_next_imf(X, **dict(full_stage_opts()['imf_opts'], **o)), {}, ('envelope_opts', 'extrema_opts'), 'options'),
+        EP('get_next_imf_mask:every-option', _mk_sift_full,
+           lambda X, **o: S.get_next_imf_mask(X, 0.1, 1.0, **every_key(S.get_next_imf_mask, dict(nphases=4, nprocesses=1), skip=OPTS3 + ('z', 'amp')), **o),
+           {}, OPTS3, 'options'),
+        EP('get_mask_freqs:every-option', lambda s, n: dict(X=sig(s, n), imf_opts=full_stage_opts()['imf_opts']),
+           lambda X, imf_opts: S.get_mask_freqs(X, 'zc', imf_opts=imf_opts), {}, ('imf_opts',), 'options'),
+        EP('interp_envelope:every-option', lambda s, n: dict(X=sig(s, n), extrema_opts=full_stage_opts()['extrema_opts']),
+           lambda X, extrema_opts: S.interp_envelope(X, mode='lower', interp_method='mono_pchip', extrema_opts=extrema_opts, ret_extrema=True),
+           {}, ('extrema_opts',), 'options'),
+        EP('is_imf:every-option', lambda s, n: dict(imf=derived(s, n)['imf'][:, :2].copy(), envelope_opts=full_stage_opts()['envelope_opts'],
+                                                    extrema_opts=full_stage_opts()['extrema_opts']),
+           lambda imf, **o: S.is_imf(imf, avg_tol=5e-2, **o), {}, ('envelope_opts', 'extrema_opts'), 'options'),
+        EP('sift_second_layer:every-option', lambda s, n: dict(IA=derived(s, n)['IA'][:, :2].copy(), sift_args=full_sift_args(S.sift, max_imfs=2)),
+           lambda IA, sift_args: S.sift_second_layer(IA, sift_func=S.sift, sift_args=sift_args), {}, ('sift_args',), 'options'),
+        EP('sift_second_layer:mask_sift:every-option',
+           lambda s, n: dict(IA=derived(s, n)['IA'][:, :2].copy(), sift_args=full_sift_args(S.mask_sift, max_imfs=2, nphases=4, nprocesses=1)),
+           lambda IA, sift_args: S.sift_second_layer(IA, sift_func=S.mask_sift, sift_args=sift_args), {}, ('sift_args',), 'options'),
+        # the caller's sift_args already names max_imfs (round-2 change C19/1: a copy was only made when it had to be filled in)
+        EP('mask_sift_second_layer:max_imfs', lambda s, n: dict(IA=derived(s, n)['IA'][:, :2].copy(), mask_freqs=np.array([0.2, 0.1, 0.05]),
+                                                                sift_args={'max_imfs': 2, 'mask_amp': 1.0, 'nphases': 4}),
+           lambda IA, mask_freqs, sift_args: S.mask_sift_second_layer(IA, mask_freqs, sift_args=sift_args), {}, ('sift_args',), 'options'),
+        EP('mask_sift_second_layer:max_imfs-only', lambda s, n: dict(IA=derived(s, n)['ia'], mask_freqs=np.array([0.2, 0.1, 0.05]), sift_args={'max_imfs': 3}),
+           lambda IA, mask_freqs, sift_args: S.mask_sift_second_layer(IA, mask_freqs, sift_args=sift_args), {'IA': dict(accept=['c'])}, ('sift_args',), 'options'),
+        EP('mask_sift_second_layer:every-option',
+           lambda s, n: dict(IA=derived(s, n)['IA'][:, :2].copy(), mask_freqs=np.array([0.2, 0.1, 0.05]),
+                             sift_args=full_sift_args(S.mask_sift, max_imfs=2, nphases=4, nprocesses=1)),
+           lambda IA, mask_freqs, sift_args: S.mask_sift_second_layer(IA, mask_freqs, sift_args=sift_args), {}, ('sift_args',), 'options'),
+        EP('mask_sift_second_layer:none', lambda s, n: dict(IA=derived(s, n)['IA'][:, :2].copy(), mask_freqs=np.array([0.2, 0.1, 0.05])),
+           lambda IA, mask_freqs: S.mask_sift_second_layer(IA, mask_freqs), {}, (), 'options'),
+        # ---- documented input-normalisation branches: unwrapped phase is wrapped (round-2 change C19/2 wrapped it in place) ----
+        EP('get_cycle_vector:unwrapped', lambda s, n: dict(phase=unwrapped(s, n)), lambda phase: CY.get_cycle_vector(phase, return_good=True),
+           {'phase': dict(accept=['c'])}, (), 'normalise'),
+        EP('get_cycle_vector:unwrapped:2d', lambda s, n: dict(phase=np.unwrap(derived(s, n)['IP'], axis=0)),
+           lambda phase: CY.get_cycle_vector(phase, return_good=False), {}, (), 'normalise'),
+        EP('get_cycle_vector:unwrapped:mask', lambda s, n: dict(phase=clean_unwrapped(s, n), mask=derived(s, n)['ia'] > np.median(derived(s, n)['ia']) * .5),
+           lambda phase, mask: CY.get_cycle_vector(phase, return_good=False, mask=mask), {'phase': VEC_OR_COL, 'mask': VEC_OR_COL}, (), 'normalise'),
+        EP('Cycles:unwrapped', lambda s, n: dict(IP=clean_unwrapped(s, n)),
+           lambda IP: (lambda C: [C.cycle_vect, C.metrics['is_good'], C.phase])(CY.Cycles(IP)), {'IP': dict(accept=['c'], reject=['n2'])}, (), 'normalise'),
+        EP('Cycles:wrapped', lambda s, n: dict(IP=clean_phase(s, n)),
+           lambda IP: (lambda C: [C.cycle_vect, C.metrics['is_good'], C.phase])(CY.Cycles(IP, compute_timings=True)), {'IP': dict(accept=['c'], reject=['n2'])}, (), 'normalise'),
+        EP('phase_align:unwrapped', lambda s, n: dict(ip=clean_unwrapped(s, n), x=derived(s, n)['if_']),
+           lambda ip, x: CY.phase_align(ip, x, npoints=16)[0].shape, {'ip': VEC, 'x': VEC}, (), 'normalise'),
+        EP('get_cycle_stat:Cycles:unwrapped', lambda s, n: dict(IP=clean_unwrapped(s, n), values=derived(s, n)['if_']),
+           lambda IP, values: CY.get_cycle_stat(CY.Cycles(IP), values, func=np.max), {'IP': dict(accept=['c']), 'values': dict(accept=['c'])}, (), 'normalise'),
+        EP('get_cycle_stat:Cycles:augmented', lambda s, n: dict(IP=clean_phase(s, n), values=derived(s, n)['if_']),
+           lambda IP, values: CY.get_cycle_stat(CY.Cycles(IP), values, mode='augmented', func=np.mean), {'values': dict(accept=['c'])}, (), 'normalise'),
+        EP('bin_by_phase:unwrapped', lambda s, n: dict(ip=clean_unwrapped(s, n), x=derived(s, n)['if_']),
+           lambda ip, x: CY.bin_by_phase(ip, x, nbins=8), {'ip': VEC, 'x': VEC_OR_COL}, (), 'normalise'),
+        EP('wrap_phase:-pi2pi', lambda s, n: dict(IP=unwrapped(s, n)), lambda IP: UT.wrap_phase(IP, ncycles=2, mode='-pi2pi'), {'IP': dict(accept=['c'])}, (), 'normalise'),
+        EP('get_cycle_vector_from_waveform', lambda s, n: dict(imf=derived(s, n)['imf'][:, 0].copy()),
+           lambda imf: CY.get_cycle_vector_from_waveform(imf, cycle_start='peaks'), {'imf': dict(accept=['c', 'c11'], reject=['n2'])}, (), 'normalise'),
+        # second-layer (3-d) input of the transforms: the 2-d -> 3-d lifting branch is skipped
+        EP('frequency_transform:hilbert:3d', lambda s, n: dict(imf=np.tile(derived(s, n)['imf'][:, :2, None], (1, 1, 2)) * np.array([1.0, 0.5])),
+           lambda imf: SP.frequency_transform(imf, 128.0, 'hilbert'), {}, (), 'normalise'),
+        EP('frequency_transform:nht:3d', lambda s, n: dict(imf=np.tile(derived(s, n)['imf'][:, :2, None], (1, 1, 2)) * np.array([1.0, 0.5])),
+           lambda imf: SP.frequency_transform(imf, 128.0, 'nht'), {}, (), 'normalise'),
+        EP('phase_from_complex_signal:vector', lambda s, n: dict(z=np.exp(1j * derived(s, n)['IP'])),
+           lambda z: SP.phase_from_complex_signal(z, smoothing=None, ret_phase='wrapped'), {}, (), 'normalise'),
+        # dtype branches: integer and single-precision input (no value claim across dtypes: untouched inputs, identical repeats)
+        EP('sift:float32', cast(_mk_sift, X='f4'), lambda X, **o: S.sift(X, max_imfs=3, **o), {'X': dict(accept=['c', 'c11'])}, OPTS3, 'dtype'),
+        EP('sift:int', cast(_mk_sift, X='i8'), lambda X, **o: S.sift(X, max_imfs=3, **o), {'X': dict(accept=['c', 'c11'])}, OPTS3, 'dtype'),
+        EP('mask_sift:int', cast(_mk_sift, X='i8'), lambda X, **o: S.mask_sift(X, max_imfs=3, nprocesses=1, **o), {'X': dict(accept=['c'])}, OPTS3, 'dtype'),
+        EP('ensemble_sift:int', cast(_mk_sift, X='i8'), lambda X, **o: S.ensemble_sift(X, nensembles=2, max_imfs=2, nprocesses=1, **o), {}, OPTS3, 'dtype', seeded=True),
+        EP('complete_ensemble_sift:float32', cast(_mk_sift, X='f4'),
+           lambda X, **o: S.complete_ensemble_sift(X, nensembles=2, max_imfs=2, nprocesses=1, **o), {}, OPTS3, 'dtype', seeded=True),
+        EP('get_next_imf:int', cast(lambda s, n: dict(X=sig(s, n)), X='i8'), lambda X: S.get_next_imf(X), {'X': dict(accept=['c'])}, (), 'dtype'),
+        EP('interp_envelope:int', cast(lambda s, n: dict(X=sig(s, n)), X='i8'), lambda X: S.interp_envelope(X, mode='lower'), {'X': dict(accept=['c'])}, (), 'dtype'),
+        EP('get_padded_extrema:float32', cast(lambda s, n: dict(X=sig(s, n)), X='f4'),
+           lambda X: S.get_padded_extrema(X, pad_width=2, mode='abs_peaks', parabolic_extrema=True), {'X': dict(accept=['c'])}, (), 'dtype'),
+        EP('frequency_transform:hilbert:float32', cast(lambda s, n: dict(imf=derived(s, n)['imf']), imf='f4'),
+           lambda imf: SP.frequency_transform(imf, 128.0, 'hilbert'), {}, (), 'dtype'),
+        EP('frequency_transform:nht:int', cast(lambda s, n: dict(imf=derived(s, n)['imf'][:, :2].copy()), imf='i8'),
+           lambda imf: SP.frequency_transform(imf, 128.0, 'nht'), {}, (), 'dtype'),
+        EP('amplitude_normalise:int', cast(lambda s, n: dict(X=derived(s, n)['imf'][:, :2].copy()), X='i8'), lambda X: UT.amplitude_normalise(X), {}, (), 'dtype'),
+        EP('amplitude_normalise:float32', cast(lambda s, n: dict(X=derived(s, n)['imf'][:, :2].copy()), X='f4'), lambda X: UT.amplitude_normalise(X, clip=True), {}, (), 'dtype'),
+        EP('hilberthuang:float32', cast(_mk_hht2, infr='f4', inam='f4'), lambda infr, inam, freq_edges: SP.hilberthuang(infr, inam, freq_edges),
+           {'infr': dict(short=True), 'inam': dict(short=True)}, (), 'dtype'),
+        EP('hilberthuang_1d:float32', cast(_mk_hht2, infr='f4', inam='f4'), lambda infr, inam, freq_edges: SP.hilberthuang_1d(infr, inam, freq_edges), {}, (), 'dtype'),
+        EP('get_cycle_vector:float32', cast(lambda s, n: dict(phase=derived(s, n)['ip']), phase='f4'), lambda phase: CY.get_cycle_vector(phase, return_good=True),
+           {'phase': dict(accept=['c'])}, (), 'dtype'),
+        EP('get_cycle_vector:unwrapped:float32', cast(lambda s, n: dict(phase=clean_unwrapped(s, n)), phase='f4'),
+           lambda phase: CY.get_cycle_vector(phase, return_good=False), {'phase': dict(accept=['c'])}, (), 'dtype'),
+        EP('get_cycle_vector:unwrapped:int', lambda s, n: dict(phase=np.floor(clean_unwrapped(s, n)).astype(np.int64)),
+           lambda phase: CY.get_cycle_vector(phase, return_good=False), {'phase': dict(accept=['c'])}, (), 'dtype'),
+        EP('get_cycle_stat:int-values', lambda s, n: dict(cycles=derived(s, n)['cv'].astype(np.int32), values=np.round(derived(s, n)['if_']).astype(np.int64)),
+           lambda cycles, values: CY.get_cycle_stat(cycles, values, func=np.max), {'cycles': VEC, 'values': VEC}, (), 'dtype'),
+        EP('phase_align:float32', cast(lambda s, n: dict(ip=derived(s, n)['ip'], x=derived(s, n)['if_']), ip='f4', x='f4'),
+           lambda ip, x: CY.phase_align(ip, x, npoints=16), {'ip': VEC, 'x': VEC}, (), 'dtype'),
+        EP('bin_by_phase:float32', cast(lambda s, n: dict(ip=derived(s, n)['ip'], x=derived(s, n)['if_']), ip='f4', x='f4'),
+           lambda ip, x: CY.bin_by_phase(ip, x, nbins=8), {'ip': VEC, 'x': VEC_OR_COL}, (), 'dtype'),
+        EP('wrap_phase:float32', cast(lambda s, n: dict(IP=unwrapped(s, n)), IP='f4'), lambda IP: UT.wrap_phase(IP), {'IP': dict(accept=['c'])}, (), 'dtype'),
+        EP('est_orthogonality:float32', cast(lambda s, n: dict(imf=derived(s, n)['imf']), imf='f4'), lambda imf: UT.est_orthogonality(imf), {}, (), 'dtype'),
         # ---- utils --------------------------------------------------------------------------------
         EP('wrap_phase', lambda s, n: dict(IP=np.unwrap(derived(s, n)['ip'])), lambda IP: UT.wrap_phase(IP), {'IP': dict(accept=['c'])}, (), 'utils'),
         EP('est_orthogonality', lambda s, n: dict(imf=derived(s, n)['imf']), lambda imf: UT.est_orthogonality(imf), {}, (), 'utils'),
